@@ -75,14 +75,23 @@ func (x *datasetExec) step(e engine.Event) {
 		nd.vals = append(nd.vals, v)
 	case "merge":
 		src := x.nodes[e.M]
-		if src == nil || src == nd || len(nd.vals)+len(src.vals) > 2000 {
+		if src == nil || len(nd.vals)+len(src.vals) > 2000 {
+			return
+		}
+		if src == nd {
+			// merging a dataset into itself: every value twice
+			x.lib("Merge(self)", "merge", func() { nd.real.Merge(nd.real) })
+			nd.vals = append(nd.vals, nd.vals...)
+			x.st.Oracle("merge")
+			x.check(nd, nil, int(e.I)|1, "self-merge")
+			x.st.Probe("self-merge")
 			return
 		}
 		before := append([]float64(nil), src.vals...)
 		x.lib("Merge", "merge", func() { nd.real.Merge(src.real) })
 		nd.vals = append(nd.vals, src.vals...)
 		x.st.Oracle("merge")
-		x.check(nd, nil, 0x0f, "merge")
+		x.check(nd, e.Q, int(e.I)|1, "merge") // the reads right after a merge vary: any of them may be the first query
 		// the argument still holds its multiset
 		src.vals = before
 		x.check(src, nil, 0x1f, "merge-argument")
@@ -308,10 +317,14 @@ func GenDatasetWorld(r *engine.PRNG, run int, tier string) *engine.Plan {
 		case 1:
 			query(id)
 		case 2:
-			if nNodes > 1 {
+			{
 				src := 1 + r.Intn(nNodes)
-				if src != id {
-					emit(engine.Event{Ev: "merge", N: id, M: src})
+				if src != id || r.Pct(30) {
+					var qs []engine.F64
+					for k := r.Intn(3); k > 0; k-- {
+						qs = append(qs, engine.F64([]float64{0, 0.5, 1, r.Float64()}[r.Intn(4)]))
+					}
+					emit(engine.Event{Ev: "merge", N: id, M: src, Q: qs, I: int64(r.Intn(32))})
 					counts[id] += counts[src]
 				}
 			}
